@@ -25,7 +25,7 @@ func (a hubAction) String() string {
 // runHubHistory executes a script of actions; `advance k` resumes the k-th
 // pending task (mod their number).
 func runHubHistory(script []hubAction) *hubRun {
-	r := &hubRun{hub: peers.NewHub(), conns: map[int]*hubConn{}, entered: make(chan int, 100000), msgSess: map[int]int{}, msgFrom: map[int]int{}}
+	r := &hubRun{hub: peers.NewHub(), conns: map[int]*hubConn{}, entered: make(chan int, 100000), msgSess: map[int]int{}, msgFrom: map[int]int{}, delivered: map[int]int{}}
 	r.st = newStepper()
 	defer r.st.close()
 	var pending []*hubTask
@@ -204,6 +204,14 @@ func runHub(cfg config, prop string) *hx.Report {
 	rng := hx.NewRand(cfg.seed)
 	id := 0
 	emit := func(script []hubAction, kind string) {
+		if rep.Distribution["violation:deadlock"] >= 2 {
+			// every further history would cost another watchdog period
+			if rep.Distribution["histories-skipped-after-deadlocks"] == 0 {
+				rep.Notes = append(rep.Notes, "stopped running histories after two deadlocks")
+			}
+			rep.Count("histories-skipped-after-deadlocks")
+			return
+		}
 		r := runHubHistory(script)
 		if r.wedged != "" {
 			// the hub no longer answers: every further call would block on its mutex
